@@ -505,6 +505,8 @@ def build_re(jax, jnp, jft, m, vector=True):
         return s
 
     dom = {k: jft.ShapeWithDtype(shp, jnp.float64) for k, shp in zip(keys, mir.shapes)}
+    if vector:
+        dom = jft.Vector(dom)
     d = jnp.asarray(mir.d)
     if m["lh"] == "gauss":
         if m["noise"]["kind"] == "diag":
